@@ -227,6 +227,7 @@ def guarded(res, fn, *args, limit=30, **kw):
 import logging
 LOG_MODE = os.environ.get('VERIF_LOG', 'mixed')
 _log_turns = [0]
+LOG_COUNT = {'default': 0, 'DEBUG': 0}
 class _Sink(logging.Handler):
     def emit(self, record):
         try: self.format(record)
@@ -234,7 +235,9 @@ class _Sink(logging.Handler):
 def log_turn() -> bool:
     if LOG_MODE != 'mixed': return LOG_MODE == 'debug'
     _log_turns[0] += 1
-    return _log_turns[0] % 4 == 0
+    if _log_turns[0] % 4 == 0:
+        LOG_COUNT['DEBUG'] += 1; return True
+    LOG_COUNT['default'] += 1; return False
 @contextlib.contextmanager
 def debug_logging(on: bool):
     if not on:
